@@ -13,7 +13,7 @@ import (
 func init() {
 	register(&propDef{
 		id: "C06", level: "other", perCfg: false,
-		explain: "Necessary structural conditions of C06 - each is one of the mechanisms the statement lists - decided for all paths of package idl by the cursor analysis (E9) and edge-fact rules; roles (layout skipper, token readers, type readers, member loop, entry point) are found by shape. Q1 no blind consume: every byte consumed by the read primitive is inspected, or the byte at the cursor is known from a preceding read+step-back. Q1c comments consume only themselves: between the comment introducer and the end of the comment no read consumes a line terminator except the final one; the comment body stops exactly at newline/end of input. Q2 failure sentinels are propagated: after a reader that can fail, its result is tested before the cursor is used again (or the cursor is proved unchanged since a snapshot). Q3 success only at end of input: the member loop's only success return is on the edge `skipper reported end of input` (whose value is position < len(input)), and every way around the loop crosses a keyword-equality edge, the no-match edge returning an error. Q4 one namespace, checked before insert: every member kind inserts its name into the same map, on the lookup-failed edge, in the block that appends the member. Q5 the entry point's success return carries len(Methods) != 0. Q6 an optional node is built only with element.Kind != optional. Q7 map only for key keyword \"string\", array only for the empty keyword, closing bracket required. Q8 struct/enum homogeneity: a typed field is appended only with Kind != enum; a bare name only when no field was appended yet or Kind == enum, and then Kind becomes enum. Q9 punctuation: the method reader succeeds only after '-' '>' ; the struct reader only after '(' ... ')' and continues only on ','. Q10 interface-name patterns are constant, ^-anchored and the cursor advances by the match length. Q9 also: after a ',' the field list ends only after another field name was read (no dangling comma). Q12 (= C05.K1) every built-in type node is built under the fact `keyword == its name`. Q13 (= C05.K5) the layout skipper passes over exactly space, tab, CR, LF and comments: no other byte is silently ignored.",
+		explain: "Necessary structural conditions of C06 - each is one of the mechanisms the statement lists - decided for all paths of package idl by the cursor analysis (E9) and edge-fact rules; roles (layout skipper, token readers, type readers, member loop, entry point) are found by shape. Q1 no blind consume: every byte consumed by the read primitive is inspected, or the byte at the cursor is known from a preceding read+step-back. Q1c comments consume only themselves: between the comment introducer and the end of the comment no read consumes a line terminator except the final one; the comment body stops exactly at newline/end of input. Q2 failure sentinels are propagated: after a reader that can fail, its result is tested before the cursor is used again (or the cursor is proved unchanged since a snapshot). Q3 success only at end of input: the member loop's only success return is on the edge `skipper reported end of input` (whose value is position < len(input)), and every way around the loop crosses a keyword-equality edge, the no-match edge returning an error. Q4 one namespace, checked before insert: every member kind inserts its name into the same map, on the lookup-failed edge, in the block that appends the member. Q5 the entry point's success return carries len(Methods) != 0. Q6 an optional node is built only with element.Kind != optional. Q7 map only for key keyword \"string\", array only for the empty keyword, closing bracket required. Q8 struct/enum homogeneity: a typed field is appended only with Kind != enum; a bare name only when no field was appended yet or Kind == enum, and then Kind becomes enum. Q9 punctuation: the method reader succeeds only after '-' '>' ; the struct reader only after '(' ... ')' and continues only on ','. Q10 interface-name patterns are constant, ^-anchored and the cursor advances by the match length. Q9 also: after a ',' the field list ends only after another field name was read (no dangling comma). Q12 (= C05.K1) every built-in type node is built under the fact `keyword == its name`. Q13 (= C05.K5) the layout skipper passes over exactly space, tab, CR, LF and comments: no other byte is silently ignored. Q5 also: the interface name stored is the reader's non-empty result. Q6 also accepts the guarded-peek form (the element's first byte is tested before the recursive read). Q8 also: the first-field test is exactly `len(fields) == 0`. Q10 also: names longer than 255 bytes are refused in both pattern arms. Q11 (= C05.K8).",
 		notDec:  "The re-print/round-trip equality as such (it is the conjunction of the mechanisms above plus the token charsets); name-shape rules the statement does not list.",
 		trusted: []string{"regexp with a ^-anchored pattern matches a prefix of its argument"},
 		run:     runC06,
